@@ -4,7 +4,7 @@ import z3
 
 from .harness import *
 from .tlayer import CharLeaf, model_string, digit, superdigit
-from .player import placeholder_value
+from .player import placeholder_value, leaf_equal
 from . import native
 
 
@@ -86,3 +86,179 @@ def render_decimal(v, cz, ph=None):
         try: return 'dm%de%d' % (cz.int(t.arg(0)), cz.int(t.arg(1)))
         except Exception: pass
     return 'dec?'
+
+
+# strings that Rust's (and other) number readers take but that are no expression of any evaluator: confirmation witnesses for a
+# public function that answers Ok without going through tokenizer, parser and evaluator
+BYPASS_POOL = ['1e5', '1E5', '1e-3', '2.5e+2', 'inf', '-inf', '+inf', 'infinity', 'Infinity', 'nan', 'NaN', '-nan', '0x10', '1_000', '+', '-', '', '()', '1 2', '1..2',
+               '2.', '5.', '1,2', '１', '٣', 'true', '1f64', '1i', '1u8', '1/', '@@', '1@', '@1', 'π2', '2π', 'ee', '1ee']
+
+
+class PipelineOb(Obligation):
+    """mod.rs of one evaluator from MIR with Parser::new, Parser::parse and ast::eval replaced by nondeterministic stubs (each
+    answers Ok(fresh) or Err(fresh)): the public function is exactly  eval(parse(new(strip(input), Some(placeholder)))) -
+    Ok(v) only when all three stages answered Ok, with v the evaluator's value, the parser fed with the whitespace-free input
+    and the caller's placeholder, the evaluator fed with the parser's tree; Err when any stage answers Err."""
+
+    def __init__(self, prop, ev, K, oc=True, label=None):
+        self.prop = prop; self.ev = ev; self.K = K; self.oc = oc
+        Obligation.__init__(self, label or '%s/pipeline/len%d/%s' % (ev, K, 'dbg' if oc else 'rel'))
+
+    def run(self, ctx):
+        import time, traceback
+        from . import engine as eng_mod
+        from .summaries import is_ws as is_white_space
+        ev = self.ev; K = self.K
+        prog = ctx.prog(self.oc, None)
+        nk = prog.enum_key('number::Number') or prog.enum_key('Number')
+        if nk: sem.set_number_variants(prog.enums[nk])
+        e = eng_mod.Engine(prog, step_limit=4000, timeout_ms=20000, seed=ctx.seed)
+        profile = 'dev' if self.oc else 'release'
+        runner = ctx.runner(profile, None)
+        res = dict(name=self.name, paths=0, obligations=0, discharged=0, confirmed=[], inconclusive=[], replayed=0, replay_mismatch=[], samples=[])
+        t0 = time.time()
+        chars = [CharLeaf('c%d' % i) for i in range(K)]
+        for c in chars: e.assume(c.constraint)
+        phl = PhLeaf(ev); ph = phl.value()
+        if phl.constraint is not True: e.assume(phl.constraint)
+        cvars = [c.var for c in chars]
+        try:
+            newfn = prog.entry(ev, 'parser_new'); parsefn = prog.entry(ev, 'parser_parse'); evalfn = prog.entry(ev, 'eval'); pub = prog.entry(ev, 'public')
+        except KeyError as ex:
+            res['inconclusive'].append('%s: %s' % (self.name, ex)); return self.fin(res, e, 0)
+        b = {k: z3.Bool('stage_%s_ok' % k) for k in ('new', 'parse', 'eval')}
+        PARSER = ('opaque', 'parser'); TREE = ('opaque', 'tree')
+        resv, resc = placeholder_value(ev, 'evalresult')
+        if resc is not True: e.assume(resc)
+        errs = {k: adt('utils::parse_error::ParseError', 'UnableToParse', [('str', tuple(ord(x) for x in 'stage ' + k))]) for k in b}
+
+        LOGKEY = ('pipeline', 'log')
+
+        def log(st): return st.mem.get(LOGKEY, ())
+
+        def stub_new(eng, st, name, a):
+            s = eng.rd(st, a[0]) if a[0][0] == 'ref' else a[0]
+            st.mem[LOGKEY] = log(st) + (('new', s, a[1]),)
+            return [(b['new'], ok(PARSER)), (z3.Not(b['new']), err(errs['new']))]
+
+        def stub_parse(eng, st, name, a):
+            p = eng.rd(st, a[0]) if a[0][0] == 'ref' else a[0]
+            st.mem[LOGKEY] = log(st) + (('parse', p),)
+            return [(b['parse'], ok(TREE)), (z3.Not(b['parse']), err(errs['parse']))]
+
+        def stub_eval(eng, st, name, a):
+            st.mem[LOGKEY] = log(st) + (('eval', a[0]),)
+            return [(b['eval'], ok(resv)), (z3.Not(b['eval']), err(errs['eval']))]
+        e.fn_stubs[newfn] = stub_new; e.fn_stubs[parsefn] = stub_parse; e.fn_stubs[evalfn] = stub_eval
+
+        def stripped_ok(s, cz_free=True):
+            """the string handed to the parser is the input without its White_Space characters: z3 condition (or Python bool)"""
+            if s[0] != 'str': return False
+            got = list(s[1])
+            # on this path every input character has been decided white or not by the path condition; compare by solver:
+            # got must equal the subsequence of non-white characters
+            conds = []
+            j = 0
+            nonwhite = []
+            for c in cvars:
+                w = is_white_space(c)
+                r = e.check(w)
+                r2 = e.check(z3.Not(w))
+                if r == z3.sat and r2 == z3.sat: return None      # undecided on this path
+                if r2 == z3.sat: nonwhite.append(c)
+            if len(nonwhite) != len(got): return False
+            for x, y in zip(got, nonwhite):
+                if is_sym(x) or is_sym(y):
+                    if e.check(x != y) != z3.unsat: return False
+                elif x != y: return False
+            return True
+
+        def bad(p, what):
+            """a path of the public function that departs from the pipeline: look for a natively reproducing input"""
+            res['obligations'] += 1
+            out = impl_outcome(p)
+            found = None
+            if out[0] in ('ok', 'panic', 'limit'):
+                # inputs on which the real stages answer Err although the public function answers Ok (or the reverse)
+                ph_txt = {'i64': '7', 'f64': native.f64_bits_str(7.0), 'number': 'I7', 'decimal': 'd7', 'complex': 'c%s,%s' % (native.f64_bits_str(7.0), native.f64_bits_str(0.0))}[ev]
+                for s in BYPASS_POOL:
+                    if len([c for c in s if not c.isspace()]) > 40: continue
+                    st1, pl1, _ = runner.request('EVAL', ev, ph_txt, native.esc(s))
+                    st2, pl2, _ = runner.request('PARSE', ev, ph_txt, native.esc(''.join(c for c in s if not c.isspace())))
+                    res['replayed'] += 1
+                    if st1 in ('PANIC', 'TIMEOUT') or (st1 == 'OK' and st2 != 'OK'):
+                        found = (s, st1 + ' ' + pl1[:120], st2 + ' ' + pl2[:80]); break
+            if found:
+                res['confirmed'].append(dict(input=found[0], native=found[1], what='%s; natively the parser alone answers %s' % (what, found[2]), profile=profile, obligation=self.name,
+                                             key='%s|pipeline|%s' % (ev, what[:60]), request=['EVAL', ev, 'default', native.esc(found[0])]))
+            else:
+                res['inconclusive'].append('%s: %s (no input of the witness pool reproduces it)' % (self.name, what))
+
+        def on_path(p):
+            res['paths'] += 1
+            lg = p.state.mem.get(LOGKEY, ())
+            stages = [x[0] for x in lg]
+            if p.kind in ('panic', 'limit'):
+                return bad(p, 'the public function itself %s (%s) after stages %s' % (p.kind, p.msg, stages))
+            v = p.value
+            if v[0] != 'adt' or v[2] not in ('Ok', 'Err'):
+                res['inconclusive'].append('%s: symbolic result' % self.name); return
+            # which stages answered Ok on this path?
+            def holds(c): return e.check(z3.Not(c)) == z3.unsat
+            if v[2] == 'Ok':
+                if stages != ['new', 'parse', 'eval'] or not all(holds(b[k]) for k in b):
+                    return bad(p, 'Ok returned after stages %s (not new, parse, eval all answering Ok)' % stages)
+                _, s, pharg = lg[0]
+                so = stripped_ok(s)
+                if so is not True:
+                    return bad(p, 'Parser::new was not given the input without its White_Space characters')
+                if not (pharg[0] == 'adt' and pharg[2] == 'Some' and leaf_equal_struct(ev, pharg[3][0], ph, e)):
+                    return bad(p, 'Parser::new was not given Some(placeholder)')
+                if lg[1][1] != PARSER: return bad(p, 'Parser::parse was not called on the parser built by Parser::new')
+                if lg[2][1] != TREE: return bad(p, 'eval was not called on the tree returned by Parser::parse')
+                if not leaf_equal_struct(ev, v[3][0], resv, e): return bad(p, 'the value returned is not the value computed by eval')
+                res['obligations'] += 1; res['discharged'] += 1
+                if len(res['samples']) < 2: res['samples'].append(dict(obligation=self.name, path='Ok', stages=stages))
+            else:
+                # Err: some stage must have answered Err (the public function adds no failure of its own)
+                failed = [k for k in stages if holds(z3.Not(b[k]))]
+                if not failed: return bad(p, 'Err returned although every stage called (%s) answered Ok' % stages)
+                res['obligations'] += 1; res['discharged'] += 1
+        st = eng_mod.State()
+        try:
+            e.on_path = on_path
+            e.call_fn(st, pub, [('str', tuple(cvars)), ph])
+            e.run(st)
+        except Unsupported as ex:
+            res['inconclusive'].append('%s: unsupported: %s' % (self.name, ex))
+        except Exception:
+            res['inconclusive'].append('%s: internal error: %s' % (self.name, traceback.format_exc()[-700:]))
+        if not res['inconclusive'] and not res['confirmed'] and res['paths'] == 0:
+            res['inconclusive'].append('%s: no path explored' % self.name)
+        return self.fin(res, e, time.time() - t0)
+
+    def fin(self, res, e, wall):
+        res['wall_s'] = round(wall, 3)
+        res['queries'] = dict(e.stats.queries); res['solver_s'] = round(e.stats.solver_s, 3); res['transitions'] = e.stats.transitions
+        res['fns'] = sorted(e.stats.fns); res['summaries'] = sorted(e.stats.summaries)
+        return res
+
+
+def leaf_equal_struct(ev, a, bb, e):
+    """a and bb denote the same value on the current path (identical terms, or equal under the path condition)"""
+    if a is bb: return True
+    if not _has_z3(a) and not _has_z3(bb) and a == bb: return True
+    try:
+        c = leaf_equal(ev, a, bb)
+    except Exception:
+        return False
+    if c is True: return True
+    if c is False: return False
+    return e.check(z3.Not(c)) == z3.unsat
+
+
+def _has_z3(v):
+    if isinstance(v, z3.ExprRef): return True
+    if isinstance(v, (tuple, list)): return any(_has_z3(x) for x in v)
+    if isinstance(v, dict): return any(_has_z3(x) for x in v.values())
+    return False
